@@ -1408,7 +1408,7 @@ class MPO:
                     tensor = (tensor[:, 0] + tensor[:, 2])[:, None]
 
             # (left, right, phys_out, phys_in) -> (phys_out, phys_in, left, right)
-            tensors.append(np.transpose(tensor, (2, 3, 0, 1)))
+            tensors.append(np.transpose(tensor, (2, 3, 0, 1)).astype(np.complex128))
 
         mpo = cls()
         mpo.tensors = tensors
